@@ -54,8 +54,10 @@ def run():
     path = os.path.join(COQ, "gen", "LockTable.v")
     os.makedirs(os.path.dirname(path), exist_ok=True)
     old = open(path).read() if os.path.exists(path) else None
-    if old != txt:
-        open(path, "w").write(txt)
+    if old != txt:                      # atomic: checks of several properties may run side by side
+        tmp = f"{path}.{os.getpid()}.tmp"
+        open(tmp, "w").write(txt)
+        os.replace(tmp, path)
     return "LockTable.v: " + ", ".join(f"{k}={v}" for k, v in t.items())
 
 
